@@ -356,6 +356,8 @@ class World:
             for fi in self.features_of(o):
                 od['feats'][fi] = self.values(o, fi)
                 od['isset'][fi] = 1 if o.eIsSet(self.feat(fi)) else 0
+                if bool(o.eIsSet(self.feat(fi).name)) != bool(od['isset'][fi]):
+                    od['isset'][fi] += 10          # eIsSet by name disagrees with eIsSet by feature object
                 f = self.feat(fi)
                 if f.many and f.unique:
                     # the position map of a unique collection (what index() answers) agrees with iteration: C04's
